@@ -36,6 +36,7 @@ from hypothesis import strategies as st
 
 from nverif.engine import Prop, Violation
 from nverif.oracle import multivar as mv
+from nverif.props.c04 import tanh_over_300
 
 EPS = 2.0 ** -52
 CALIBRATE = bool(os.environ.get('NVERIF_CALIBRATE'))
@@ -50,6 +51,7 @@ K_DIR = 1e5
 # worst err/R over rounding-dominated entries 1.04e3.
 C_X = {'central': 3.0, 'complex': 3.0, 'multicomplex': 3.0, 'forward': 100.0, 'backward': 500.0}
 C_XR = 3e4
+ASYMPTOTIC = 1e-2     # the extrapolated order is asserted only when T_p(w h_max) <= ASYMPTOTIC * S_1
 ASSUME_KNOWN = bool(os.environ.get('NVERIF_ASSUME_KNOWN'))     # development aid only, never set by ./check
 OVERFLOW = 1e150
 METHODS = ['central', 'forward', 'backward', 'complex', 'multicomplex']
@@ -285,7 +287,8 @@ class C03(Prop):
                     ux = mv.extrapolated_unit(an, 'Jacobian', method, order, e, (j,), [hs[:, j]], k_est, self._ratio, w,
                                               diff_forming, amp_rule)
                     if ux is not None and ux[0] > 0 and math.isfinite(ux[0]):
-                        U, which, t, Tp, Rp = ux
+                        U, which, t, Tp, Rp, Tmax = ux
+                        asymptotic = Tmax <= ASYMPTOTIC * S
                         xcfg = 'geo' if case['step']['kind'] == 'geo' else 'default' if cfg != 'user' else 'user'
                         xlabel = '%s|%s%s' % (method, xcfg, '|mcx-order>=4' if method == 'multicomplex' and order >= 4 else '')
                         summ = dict(prog=mv.describe(case['prog']), x=case['x'], e=e, j=j, order=order, step=case['step'],
@@ -296,7 +299,9 @@ class C03(Prop):
                             ctx.track('x-order err/T (T>=R)|%s' % xlabel, excess / Tp, summ)
                         else:
                             ctx.track('x-order err/R (R>T)|%s' % xlabel, excess / Rp, summ)
-                        cx = c_x(method, xcfg)
+                        cx = c_x(method, xcfg) if asymptotic else None
+                        if not asymptotic:
+                            ctx.count('x-order not asserted: sequence not asymptotic (T_p(h_max) > 1e-2 S_1)')
                         if cx is not None and not CALIBRATE:
                             if xcfg == 'geo':
                                 ctx.count('x-order asserted on a short geometric user sequence|%s' % method)
@@ -326,6 +331,9 @@ class C03(Prop):
         try:
             self._check(case, ctx)
         except Violation as v:
+            if ASSUME_KNOWN and case['method'] == 'multicomplex' and v.clause in ('finite', 'envelope') \
+                    and self.finding_key(case, v).get('tanh_arg_over_300'):
+                ctx.skip('dev switch: reported class Bicomplex tanh overflow (F11)')
             if ASSUME_KNOWN and v.clause == 'extrapolated-order' and case['method'] == 'multicomplex' \
                     and case['order'] >= 4:
                 ctx.skip('dev switch: reported class multicomplex with order >= 4 (Richardson assumes h^order)')
@@ -580,13 +588,15 @@ class C03(Prop):
     def finding_key(self, case, v):
         if case is None:
             return {'clause': v.clause}
+        tanh_big = False
         try:
-            ops = mv.MVAnalysis(case['prog'], case['x'], K=4).ops()
+            an = mv.MVAnalysis(case['prog'], case['x'], K=4)
+            ops, tanh_big = an.ops(), tanh_over_300(case['prog'], an)
         except Exception:
             ops = []
         return {'clause': v.clause, 'api': case['api'], 'method': case['method'], 'order': case['order'],
                 'kind': case['kind'], 'container': case['prog']['container'], 'xform': case['xform'],
-                'm': len(case['prog']['comps']), 'n': case['prog']['n'], 'ops': ops,
+                'm': len(case['prog']['comps']), 'n': case['prog']['n'], 'ops': ops, 'tanh_arg_over_300': tanh_big,
                 'step_kind': case['step']['kind'], 'exception': v.details.get('exception'),
                 'where': v.details.get('where')}
 
